@@ -20,9 +20,13 @@ Record xstate := mkX {
   x_skipped : list oid            (* operations that named an unusable slot *)
 }.
 
+(* how a client calls: the async method, a blocking_* method from a thread (with or without
+   timeout), or a deprecated *_blocking alias (whose timeout argument is ignored) *)
+Inductive flavour := FlAsync | FlBlocking | FlDeprecated.
+
 Inductive action :=
 | DSpawn (cap : nat) (auto : bool)
-| DOp (o : oid) (k : okind) (slot : nat) (tmo : option N)
+| DOp (o : oid) (k : okind) (slot : nat) (tmo : option N) (fl : flavour)
 | DKill (slot : nat)
 | DClone (src dst : nat) | DDrop (slot : nat)
 | DDowngrade (src dst : nat) | DUpgrade (src dst : nat)
@@ -37,6 +41,19 @@ Definition fn_of (k : okind) (tmo : option N) : fnname :=
   | KTell, None => FTell | KTell, Some _ => FTellTo
   | KAsk, None => FAsk | KAsk, Some _ => FAskTo
   | KStop, _ => FStop end.
+
+(* desugaring of the blocking API: which core operation (function, timeout) a call amounts to *)
+Definition desugar (fl : flavour) (k : okind) (tmo : option N) : fnname * option N :=
+  match fl, k, tmo with
+  | FlAsync, _, _ => (fn_of k tmo, tmo)
+  | _, KStop, _ => (FStop, None)
+  | FlBlocking, KTell, None => (FBTell, None)
+  | FlBlocking, KTell, Some d => (FBTellTo, Some d)
+  | FlBlocking, KAsk, None => (FBAsk, None)
+  | FlBlocking, KAsk, Some d => (FBAskTo, Some d)
+  | FlDeprecated, KTell, _ => (FBTell, None)        (* tell_blocking(msg, t) = blocking_tell(msg, None) *)
+  | FlDeprecated, KAsk, _ => (FBAsk, None)
+  end.
 
 Fixpoint slot_get (sl : list (nat * refv)) (n : nat) : option refv :=
   match sl with [] => None | (m, v) :: t => if m =? n then Some v else slot_get t n end.
@@ -64,10 +81,10 @@ Definition apply_action (act : action) (x : xstate) : xstate :=
       let a := length (s_actors (x_sys x)) in
       set_x_slots (x_slots x ++ [(a, RStrong a)])
         (set_x_env (x_env x ++ [mkEnv [] [] auto]) (xstep (LSpawn cap) x))
-  | DOp o k sl tmo =>
+  | DOp o k sl tmo fl =>
       if op_fresh x o then
         match slot_get (x_slots x) sl with
-        | Some (RStrong a) => xstep (LBegin o k a None tmo (fn_of k tmo)) x
+        | Some (RStrong a) => xstep (LBegin o k a None (snd (desugar fl k tmo)) (fst (desugar fl k tmo))) x
         | _ => skip o x end
       else x
   | DKill sl =>
